@@ -625,12 +625,13 @@ pub fn spawn_with_mailbox_capacity<T: Actor + 'static>(
         metrics,
     );
 
-    let join_handle = tokio::spawn(crate::actor::run_actor_lifecycle(
-        args,
-        actor_ref.clone(),
-        mailbox_rx,
-        terminate_rx,
-    ));
+    #[cfg(rsactor_verif)]
+    crate::__verif::emit("Spawn", actor_id.id, mailbox_capacity as u64, 0);
+
+    let lifecycle = crate::actor::run_actor_lifecycle(args, actor_ref.clone(), mailbox_rx, terminate_rx);
+    #[cfg(rsactor_verif)]
+    let lifecycle = crate::__verif::lifecycle(actor_id.id, lifecycle);
+    let join_handle = tokio::spawn(lifecycle);
 
     (actor_ref, join_handle)
 }
@@ -647,5 +648,180 @@ pub fn __verif_wait_for_edges() -> Vec<(u64, u64)> {
             .iter()
             .map(|(k, v)| (*k, v.0.id))
             .collect(),
+    }
+}
+
+/// Verification event log (compiled only with `--cfg rsactor_verif`; inert unless the environment variable
+/// `RSACTOR_VERIF_TRACE` names a file): one JSON line per lifecycle event, numbered by a process-wide ticket taken
+/// under the lock that also orders the writes.
+#[cfg(rsactor_verif)]
+#[doc(hidden)]
+pub mod __verif {
+    use std::future::Future;
+    use std::io::Write;
+    use std::pin::Pin;
+    use std::sync::{Mutex, OnceLock};
+    use std::task::{Context, Poll};
+
+    struct Sink {
+        file: std::fs::File,
+        ticket: u64,
+    }
+    static SINK: OnceLock<Option<Mutex<Sink>>> = OnceLock::new();
+
+    pub fn emit(ev: &str, actor: u64, x: u64, y: u64) {
+        let sink = SINK.get_or_init(|| {
+            std::env::var_os("RSACTOR_VERIF_TRACE")
+                .and_then(|p| std::fs::OpenOptions::new().create(true).append(true).open(p).ok())
+                .map(|file| Mutex::new(Sink { file, ticket: 0 }))
+        });
+        if let Some(sink) = sink {
+            let mut g = sink.lock().unwrap_or_else(|e| e.into_inner());
+            g.ticket += 1;
+            let line = format!(
+                "{{\"t\":{},\"pid\":{},\"e\":\"{}\",\"id\":{},\"x\":{},\"y\":{}}}\n",
+                g.ticket,
+                std::process::id(),
+                ev,
+                actor,
+                x,
+                y
+            );
+            let _ = g.file.write_all(line.as_bytes());
+        }
+    }
+
+    /// 0 = Ok / unit, 1 = Err
+    pub trait Outcome {
+        fn code(&self) -> u64;
+    }
+    impl Outcome for () {
+        fn code(&self) -> u64 {
+            0
+        }
+    }
+    impl<A, B> Outcome for Result<A, B> {
+        fn code(&self) -> u64 {
+            if self.is_ok() {
+                0
+            } else {
+                1
+            }
+        }
+    }
+
+    fn hook_of(expr: &str) -> &'static str {
+        if expr.contains("on_start") {
+            "Start"
+        } else if expr.contains("on_stop") {
+            "Stop"
+        } else if expr.contains("handle_message") {
+            "Handler"
+        } else {
+            "Other"
+        }
+    }
+
+    /// one awaited hook: `enter` logs <Hook>Enter, `exit` logs <Hook>Exit with the outcome; a hook that unwinds logs
+    /// <Hook>Unwind instead
+    pub struct HookGuard {
+        hook: &'static str,
+        id: u64,
+        done: bool,
+    }
+    impl HookGuard {
+        pub fn enter(identity: &crate::Identity, expr: &str) -> HookGuard {
+            let hook = hook_of(expr);
+            // on_stop(&weak, killed): the flag is the last argument of the call as written
+            let killed = if hook == "Stop" {
+                if expr.contains("false)") {
+                    0
+                } else if expr.contains("true)") {
+                    1
+                } else {
+                    2 // a variable: reported by the caller through `stop_flag`
+                }
+            } else {
+                0
+            };
+            emit(&format!("{hook}Enter"), identity.id, killed, 0);
+            HookGuard { hook, id: identity.id, done: false }
+        }
+        pub fn exit(mut self, code: u64) {
+            self.done = true;
+            emit(&format!("{}Exit", self.hook), self.id, code, 0);
+        }
+    }
+    impl Drop for HookGuard {
+        fn drop(&mut self) {
+            if !self.done {
+                emit(&format!("{}Unwind", self.hook), self.id, 0, 0);
+            }
+        }
+    }
+
+    /// the on_run branch of the select: logs RunEnd when an invocation completes (0 = Ok(true), 1 = Ok(false), 2 = Err)
+    pub struct RunFut<F> {
+        id: u64,
+        inner: Pin<Box<F>>,
+    }
+    impl<F> RunFut<F> {
+        pub fn new(identity: &crate::Identity, inner: F) -> RunFut<F> {
+            RunFut { id: identity.id, inner: Box::pin(inner) }
+        }
+    }
+    impl<F, E> Future for RunFut<F>
+    where
+        F: Future<Output = Result<bool, E>>,
+    {
+        type Output = Result<bool, E>;
+        fn poll(mut self: Pin<&mut Self>, cx: &mut Context<'_>) -> Poll<Self::Output> {
+            match self.inner.as_mut().poll(cx) {
+                Poll::Ready(r) => {
+                    let code = match &r {
+                        Ok(true) => 0,
+                        Ok(false) => 1,
+                        Err(_) => 2,
+                    };
+                    emit("RunEnd", self.id, code, 0);
+                    Poll::Ready(r)
+                }
+                Poll::Pending => Poll::Pending,
+            }
+        }
+    }
+
+    /// the whole lifecycle task: logs the ActorResult it produces
+    pub async fn lifecycle<T: crate::Actor>(id: u64, fut: impl Future<Output = crate::ActorResult<T>>) -> crate::ActorResult<T> {
+        let r = fut.await;
+        let (kind, phase, killed) = match &r {
+            crate::ActorResult::Completed { killed, .. } => (0, 0, *killed),
+            crate::ActorResult::Failed { phase, killed, .. } => (
+                1,
+                match phase {
+                    crate::FailurePhase::OnStart => 1,
+                    crate::FailurePhase::OnRun => 2,
+                    crate::FailurePhase::OnStop => 3,
+                    crate::FailurePhase::OnRunThenOnStop => 4,
+                },
+                *killed,
+            ),
+        };
+        emit("Result", id, kind * 10 + phase, killed as u64);
+        r
+    }
+
+    /// kill(): KillStart before the signal is sent, KillDone when the call returns
+    pub struct KillGuard(pub u64);
+    impl KillGuard {
+        pub fn start(id: u64) -> KillGuard {
+            emit("KillStart", id, 0, 0);
+            KillGuard(id)
+        }
+    }
+    impl Drop for KillGuard {
+        fn drop(&mut self) {
+            emit("KillDone", self.0, 0, 0);
+        }
     }
 }
